@@ -12,7 +12,7 @@ import ast
 import operator
 
 from .errors import AnalysisError, Unsupported
-from .pxv import (ALIASES, Bound, Closure, Event, Exc, Hierarchy, Obj, Partial, Path, Sym, exc_name_of, _match)
+from .pxv import (ALIASES, NT, Bound, Closure, Event, Exc, Hierarchy, Iter, Obj, Partial, Path, Sym, exc_name_of, _match)
 from .te import ClassRef, FuncRef, Member, ModuleRef, Record, TypeRef, Unknown
 
 
@@ -64,7 +64,82 @@ PURE_BUILTINS = {"divmod", "pow", "round", "ord", "chr", "hex", "len", "range", 
                  "reversed", "hash", "callable", "iter", "print", "id"}
 
 
+class _GenAbort(BaseException):
+    """Unwinds an abandoned generator body (the path that created it has ended)."""
+
+
+class _LazyGen:
+    """A synchronous generator function of the repository, run lazily: the body executes on its own thread, in strict
+    alternation with the consumer (one of the two runs at any time), and is suspended at each ``yield``."""
+
+    def __init__(self, px, func, recv, args, kwargs, frame):
+        import threading
+
+        self.px, self.func, self.recv, self.args, self.kwargs, self.frame = px, func, recv, args, kwargs, frame
+        self.resume, self.ready = threading.Semaphore(0), threading.Semaphore(0)
+        self.thread, self.done, self.abort = None, False, False
+        self.value, self.error = None, None
+        px._live_gens.append(self)
+
+    def __iter__(self):
+        return self
+
+    def _body(self):
+        self.resume.acquire()
+        try:
+            if self.abort:
+                return
+
+            def on_yield(v):
+                self.value = v
+                self.ready.release()
+                self.resume.acquire()
+                if self.abort:
+                    raise _GenAbort()
+
+            self.px.call_function_gen(self.func, self.recv, self.args, self.kwargs, self.frame, on_yield)
+        except _GenAbort:
+            pass
+        except BaseException as ex:  # Exc, Truncated, AnalysisError, control signals: re-raised in the consumer
+            self.error = ex
+        finally:
+            self.done = True
+            self.ready.release()
+
+    def __next__(self):
+        import threading
+
+        if self.done:
+            raise StopIteration
+        if self.thread is None:
+            self.thread = threading.Thread(target=self._body, daemon=True)
+            self.thread.start()
+        self.resume.release()
+        self.ready.acquire()
+        if self.error is not None:
+            err, self.error = self.error, None
+            raise err
+        if self.done:
+            raise StopIteration
+        return self.value
+
+    def close(self):
+        if self.thread is not None and not self.done:
+            self.abort = True
+            self.resume.release()
+            self.thread.join(5)
+        self.done = True
+
+
 class PX:
+    @property
+    def _yield_stack(self):
+        return getattr(self._tls, "ys", [])
+
+    @_yield_stack.setter
+    def _yield_stack(self, v):
+        self._tls.ys = v
+
     def __init__(self, repo, *, models=None, inline=None, max_paths=20000, max_depth=4, cancel=False,
                  loop_iters=(0, 1, 2), while_bound=3, facts=None, auto_timeout=True, pure=(), refine_membership=False,
                  fork_loop_bound=12, budget_s=120.0):
@@ -82,6 +157,10 @@ class PX:
         self.fork_loop_bound = fork_loop_bound
         self.budget_s = budget_s  # wall-clock budget of one exploration: exceeded -> AnalysisError, never a verdict
         self.pure = tuple(pure)  # callee text patterns that are side-effect free & uninteresting (no event)
+        import threading
+
+        self._tls = threading.local()
+        self._live_gens = []
         self.hier = Hierarchy(repo)
         self.truncated = 0
         self.visited = set()
@@ -144,6 +223,10 @@ class PX:
             except Truncated:
                 self.truncated += 1
                 self.truncated_paths.append(self._path("truncated", None))
+            finally:
+                for g in self._live_gens:
+                    g.close()
+                self._live_gens = []
             pending.extend(self._new)
             if len(paths) + len(pending) > self.max_paths:
                 raise AnalysisError(f"path cap {self.max_paths} exceeded")
@@ -338,13 +421,19 @@ class PX:
         for t in st.targets:
             if isinstance(t, ast.Subscript):
                 d = self.ev(t.value, fr)
-                k = self.ev(t.slice, fr)
-                self.emit("write", _text(t.value) + ".__delitem__", (k,), node=st, frame=fr)
-                if isinstance(d, (dict, list)):
+                k = self.ev_index(t.slice, fr)
+                if isinstance(k, slice) and any(isinstance(x, (Sym, Obj)) for x in (k.start, k.stop, k.step)):
+                    k = Sym(f"{_short(k.start)}:{_short(k.stop)}")
+                self.emit("write", _text(t.value) + ".__delitem__", (k,), node=st, frame=fr, callee=f"{_short(d)}.__delitem__")
+                if isinstance(d, (dict, list, bytearray)) and not isinstance(k, (Sym, Obj)):
                     try:
-                        del d[k]
-                    except (KeyError, IndexError):
+                        del d[k.value if isinstance(k, Member) else k]
+                    except KeyError:
                         raise Exc("KeyError", (k,), origin=_text(t))
+                    except IndexError:
+                        raise Exc("IndexError", (k,), origin=_text(t))
+                    except TypeError:
+                        raise Exc("TypeError", (k,), origin=_text(t))
             elif isinstance(t, ast.Name):
                 fr.locals.pop(t.id, None)
 
@@ -407,7 +496,7 @@ class PX:
                 self.exec_block(st.orelse, fr)
                 return
             n += 1
-            if n > (200 if known else self.while_bound) or nfork > self.fork_loop_bound:
+            if n > (5000 if known else self.while_bound) or nfork > self.fork_loop_bound:
                 raise Truncated()
             taken = len(self._taken)
             try:
@@ -500,6 +589,25 @@ class PX:
         it = self.ev(st.iter, fr)
         if isinstance(it, list):
             return self._for_live_list(st, fr, it)
+        if isinstance(it, Iter):
+            n = 0
+            while True:
+                try:
+                    x = next(it.it)
+                except StopIteration:
+                    break
+                n += 1
+                if n > 100000:
+                    raise Truncated()
+                self.assign(st.target, x, fr)
+                try:
+                    self.exec_block(st.body, fr)
+                except _Break:
+                    return
+                except _Continue:
+                    continue
+            self.exec_block(st.orelse, fr)
+            return
         if isinstance(it, (dict, set)):
             n0 = len(it)
             vals = self.iter_values(it, st.target, fr, st)
@@ -696,7 +804,7 @@ class PX:
             raise state["signal"]
 
     def call_function_gen(self, func, self_obj, args, kwargs, frame, on_yield):
-        prev = getattr(self, "_yield_stack", [])
+        prev = self._yield_stack
         self._yield_stack = prev + [on_yield]
         try:
             return self.call_function(func, self_obj, args, kwargs, frame)
@@ -741,9 +849,11 @@ class PX:
                 pass
         elif isinstance(t, ast.Subscript):
             base = self.ev(t.value, fr)
-            k = self.ev(t.slice, fr)
+            k = self.ev_index(t.slice, fr)
+            if isinstance(k, slice) and any(isinstance(x, (Sym, Obj)) for x in (k.start, k.stop, k.step)):
+                k = Sym(f"{_short(k.start)}:{_short(k.stop)}")
             self.emit("write", _text(t.value) + "[]", (k, v), node=t, frame=fr)
-            if isinstance(base, (dict, list, bytearray)):
+            if isinstance(base, (dict, list, bytearray)) and not (isinstance(k, Sym) and isinstance(base, (list, bytearray))):
                 try:
                     base[k] = v
                 except Exception:
@@ -754,6 +864,14 @@ class PX:
                 base.fields[("[]", _hashable(k))] = v
         else:
             raise Unsupported(f"{fr.mod}:{t.lineno} assignment target {type(t).__name__}")
+
+    def ev_index(self, sl, fr):
+        """Subscript index: an ast.Slice becomes a Python slice of evaluated bounds."""
+        if isinstance(sl, ast.Slice):
+            parts = [self.ev(x, fr) if x is not None else None for x in (sl.lower, sl.upper, sl.step)]
+            parts = [p.value if isinstance(p, Member) else p for p in parts]
+            return slice(*parts)
+        return self.ev(sl, fr)
 
     def sym_index(self, v, i):
         key = (v.tag, ("[]", _hashable(i)))
@@ -806,6 +924,8 @@ class PX:
             c = v.ctor
             if isinstance(c, (ClassRef, TypeRef)) and int_type_of(c) and len(v.args) == 1 and isinstance(v.args[0], (int, Member)) and not v.kwargs:
                 out = ZInt(int(v.args[0]), *int_type_of(c))
+            elif isinstance(c, ClassRef) and _is_namedtuple(c):
+                out = self._make_nt(c, [self.lift(a, depth + 1) for a in v.args], {k: self.lift(a, depth + 1) for k, a in v.kwargs.items()}, "lift")
             elif isinstance(c, ClassRef) and (_is_dataclass(c) or c.is_struct):
                 names = [f[0] for f in c.struct_fields()]
                 fields = {}
@@ -937,6 +1057,23 @@ class PX:
             return Sym(f"{b.func.short}.{attr}")
         if isinstance(b, Exc):
             return Sym(f"{b.cls_name}.{attr}")
+        if isinstance(b, NT):
+            if attr in b.names:
+                return b[b.names.index(attr)]
+            if attr == "_fields":
+                return tuple(b.names)
+            try:
+                v = b.cref.lookup(attr)
+            except KeyError:
+                v = None
+            if isinstance(v, FuncRef):
+                if _is_property(v):
+                    return self.call_function(v, b, [], {}, fr)
+                return v if _is_static(v) else Bound(b, v)
+            if v is not None and not isinstance(v, Unknown):
+                return v
+            if attr in ("_replace", "_asdict"):
+                return _PyMethod(b, attr)
         if isinstance(b, (list, dict, set, frozenset, tuple, str, bytes, bytearray, int, float)) or b is None:
             if not hasattr(b, attr):
                 raise Exc("AttributeError", (f"{type(b).__name__!r} object has no attribute {attr!r}",), origin=_text(e) if e is not None else attr)
@@ -1317,7 +1454,7 @@ class PX:
 
     def e_Yield(self, e, fr):
         v = self.ev(e.value, fr) if e.value is not None else None
-        stack = getattr(self, "_yield_stack", [])
+        stack = self._yield_stack
         if stack:
             cb = stack[-1]
             # the with-body runs with the stack of the *caller*
@@ -1328,6 +1465,22 @@ class PX:
                 self._yield_stack = stack
             return None
         self.emit("yield", fr.func.short if fr.func else "?", (v,), node=e, frame=fr)
+        return None
+
+    def e_YieldFrom(self, e, fr):
+        v = self.ev(e.value, fr)
+        stack = self._yield_stack
+        items = self._concrete_iter(v, fr, e)
+        for x in items:
+            if stack:
+                cb = stack[-1]
+                self._yield_stack = stack[:-1]
+                try:
+                    cb(x)
+                finally:
+                    self._yield_stack = stack
+            else:
+                self.emit("yield", fr.func.short if fr.func else "?", (x,), node=e, frame=fr)
         return None
 
     def e_Await(self, e, fr):
@@ -1437,6 +1590,61 @@ class PX:
         if isinstance(fval, TypeRef) and fval.name == "dataclasses.replace" and args and isinstance(args[0], Obj):
             o = Obj(args[0].cls, {**args[0].fields, **kw}, tag=args[0].tag)
             return o
+        if isinstance(fval, TypeRef) and fval.name.startswith("operator.") and not kw:
+            import operator as _op
+
+            fn = getattr(_op, fval.name[9:], None)
+            vals = [a.value if isinstance(a, Member) and a.intlike else a for a in args]
+            if callable(fn) and not any(isinstance(a, (Sym, Obj)) or _has_sym(a) for a in vals):
+                try:
+                    return fn(*vals)
+                except (TypeError, ValueError, ZeroDivisionError) as ex:
+                    raise Exc(type(ex).__name__, (), origin=text)
+            if fval.name[9:] in ("xor", "and_", "or_", "add", "sub", "mul", "mod", "lshift", "rshift", "floordiv") and len(args) == 2:
+                opn = {"xor": ast.BitXor, "and_": ast.BitAnd, "or_": ast.BitOr, "add": ast.Add, "sub": ast.Sub, "mul": ast.Mult, "mod": ast.Mod,
+                       "lshift": ast.LShift, "rshift": ast.RShift, "floordiv": ast.FloorDiv}[fval.name[9:]]
+                return self.binop(opn(), args[0], args[1], node)
+        if isinstance(fval, TypeRef) and fval.name == "functools.reduce" and len(args) >= 2 and not isinstance(args[1], Sym):
+            items = self._concrete_iter(args[1], fr, node)
+            if len(args) > 2:
+                acc = args[2]
+            elif items:
+                acc, items = items[0], items[1:]
+            else:
+                raise Exc("TypeError", ("reduce() of empty iterable with no initial value",), origin=text)
+            for x in items:
+                acc = self._apply(args[0], [acc, x], fr, node, text)
+            return acc
+        if isinstance(fval, TypeRef) and fval.name.startswith("itertools.") and fval.name != "itertools.cycle" \
+                and not any(isinstance(a, Sym) for a in args):
+            import itertools as _it
+
+            nm = fval.name[10:]
+            conv = lambda a: a.it if isinstance(a, Iter) else (iter(self._concrete_iter(a, fr, node)) if isinstance(a, (list, tuple, set, frozenset, range, bytes, bytearray, str, dict, _Gen, _DictItems)) or (isinstance(a, ClassRef) and a.is_enum) else a)
+            if nm == "chain.from_iterable" and len(args) == 1:
+                outer = conv(args[0])
+                return Iter((y for x in outer for y in conv(x)), "chain")
+            if nm == "chain":
+                return Iter((y for x in args for y in conv(x)), "chain")
+            if nm == "count":
+                vals = [a.value if isinstance(a, Member) else a for a in args]
+                return Iter(_it.count(*vals, **kw), "count")
+            if nm in ("islice", "repeat", "zip_longest", "product", "pairwise", "batched", "takewhile_") and hasattr(_it, nm):
+                return Iter(getattr(_it, nm)(*[conv(a) if i == 0 or nm in ("zip_longest", "product") else (a.value if isinstance(a, Member) else a) for i, a in enumerate(args)], **kw), nm)
+            if nm == "starmap" and len(args) == 2:
+                return Iter((self._apply(args[0], list(xs), fr, node, text) for xs in conv(args[1])), "starmap")
+            if nm == "accumulate" and args:
+                def gen_acc():
+                    it_ = conv(args[0])
+                    fnv = args[1] if len(args) > 1 else kw.get("func")
+                    first = True
+                    for x in it_:
+                        if first:
+                            acc, first = x, False
+                        else:
+                            acc = self._apply(fnv, [acc, x], fr, node, text) if fnv is not None else self.binop(ast.Add(), acc, x, node)
+                        yield acc
+                return Iter(gen_acc(), "accumulate")
         if isinstance(fval, TypeRef) and fval.name == "itertools.cycle" and args and not isinstance(args[0], Sym):
             return _Cycle(self._concrete_iter(args[0], fr, node))
         if isinstance(fval, TypeRef) and fval.name == "itertools.chain" and not any(isinstance(a, Sym) for a in args):
@@ -1463,6 +1671,11 @@ class PX:
                     r = self.call_function(target, recv, args, kw, fr)
                     cache[ckey] = r
                     return r
+            if not is_async and isinstance(target, (FuncRef, Closure)) and _is_generator(target.node) \
+                    and not any("contextmanager" in d for d in _decos(target)) and self.should_inline(fval, awaited, fr):
+                self.emit("call", text, args, kw, node=node, frame=fr, extra="generator")
+                recv = fval.recv if isinstance(fval, Bound) else None
+                return Iter(_LazyGen(self, target, recv, args, kw, fr), f"generator {getattr(target, 'name', '?')}")
             if self.should_inline(fval, awaited, fr) and (awaited or not is_async):
                 # an inlined helper is not itself a suspension point: always recorded as a plain call
                 self.emit("call", text, args, kw, node=node, frame=fr, extra="inlined")
@@ -1500,7 +1713,34 @@ class PX:
             return self.opaque(text, args, kw, fr, node, awaited, _short(fval))
         return self.opaque(text, args, kw, fr, node, awaited, _short(fval) if isinstance(fval, Sym) else None)
 
+    def _make_nt(self, cls, args, kw, text):
+        fields = cls.struct_fields()
+        names = [f[0] for f in fields]
+        vals = {}
+        for fn, fty, dflt in fields:
+            if dflt is not None and not isinstance(dflt, Unknown):
+                vals[fn] = self.lift(dflt)
+        if len(args) > len(names):
+            raise Exc("TypeError", (f"{cls.name}() takes {len(names)} positional arguments",), origin=text)
+        for n, a in zip(names, args):
+            vals[n] = a
+        for k, a in kw.items():
+            if k not in names:
+                raise Exc("TypeError", (f"{cls.name}() got an unexpected keyword argument {k!r}",), origin=text)
+            vals[k] = a
+        missing = [n for n in names if n not in vals]
+        if missing:
+            raise Exc("TypeError", (f"{cls.name}() missing {missing}",), origin=text)
+        return NT(cls, [vals[n] for n in names])
+
+    def _apply(self, fn, args, fr, node, text="call"):
+        """Call an explorer-level callable value (closure, repo function, bound method, type, builtin) on values."""
+        t = getattr(fn, "short", None) or getattr(fn, "name", None) or text
+        return self.do_call(fn, str(t), list(args), {}, fr, node, False)
+
     def construct(self, cls, text, args, kw, fr, node):
+        if _is_namedtuple(cls):
+            return self._make_nt(cls, list(args), dict(kw), text)
         it = int_type_of(cls)
         if it and len(args) == 1 and isinstance(args[0], (int, Member)) and not kw:
             return ZInt(int(args[0]), *it)
@@ -1601,6 +1841,19 @@ class PX:
     # -- python-level methods on concrete containers
     def py_method(self, m, text, args, kw, fr, node):
         obj, name = m.obj, m.name
+        if isinstance(obj, NT) and name == "_replace":
+            return NT(obj.cref, [kw.get(n, v) for n, v in zip(obj.names, obj)])
+        if isinstance(obj, NT) and name == "_asdict":
+            return dict(zip(obj.names, obj))
+        args = [list(a) if isinstance(a, (Iter, _Gen)) else (a.materialise() if isinstance(a, _DictItems) else a) for a in args]
+        if name == "join" and isinstance(obj, (str, bytes, bytearray)) and args and isinstance(args[0], (list, tuple)):
+            if any(isinstance(x, (Sym, Obj)) for x in args[0]):
+                return Sym(f"{text}#{self._count('call:' + text)}")
+            conv = [bytes(x) if isinstance(x, bytearray) and isinstance(obj, bytes) else x for x in args[0]]
+            try:
+                return obj.join(conv)
+            except TypeError:
+                raise Exc("TypeError", ("join",), origin=text)
         if type(obj).__module__ == "re":
             if any(isinstance(a, (Sym, Obj)) for a in args):
                 return Sym(f"{text}#{self._count('call:' + text)}")
@@ -1658,8 +1911,43 @@ class PX:
             if isinstance(a, ZInt):
                 return TypeRef(f"zigpy.types.{'' if a.signed else 'u'}int{a.bits}{'s' if a.signed else '_t'}")
             return Sym(f"type({_short(a)})")
+        if n == "iter" and len(args) == 1:
+            a = args[0]
+            if isinstance(a, Iter):
+                return a
+            if isinstance(a, _Gen):
+                return a
+            if isinstance(a, _DictItems):
+                return Iter(iter(a.materialise()), "iter")
+            if isinstance(a, ClassRef) and a.is_enum:
+                return Iter(iter(a.canonical_members()), "iter")
+            if isinstance(a, (list, tuple, set, frozenset, range, bytes, bytearray, str, dict)):
+                return Iter(iter(a), "iter")  # live view, as in Python
+            if isinstance(a, Sym):
+                return Sym(f"iter({a.tag})")
+        if n in ("map", "filter") and len(args) >= 2 and not any(isinstance(a, Sym) for a in args[1:]):
+            fn = args[0]
+            its = [iter(self._concrete_iter(a, fr, node)) if not isinstance(a, Iter) else a.it for a in args[1:]]
+
+            def gen_map():
+                for xs in zip(*its):
+                    if n == "map":
+                        yield self._apply(fn, list(xs), fr, node, text)
+                    else:
+                        keep = xs[0] if fn is None else self._apply(fn, [xs[0]], fr, node, text)
+                        if self.truth(keep, fr, node):
+                            yield xs[0]
+
+            return Iter(gen_map(), n)
         if n == "next":
             a = args[0]
+            if isinstance(a, Iter):
+                try:
+                    return next(a.it)
+                except StopIteration:
+                    if len(args) > 1:
+                        return args[1]
+                    raise Exc("StopIteration", (), origin=text)
             if isinstance(a, _Gen):
                 if a.items:
                     return a.items.pop(0)
@@ -1715,6 +2003,11 @@ class PX:
                     a = a.materialise()
                 elif isinstance(a, _Gen):
                     a = list(a.items)
+                elif isinstance(a, Iter):
+                    if n in ("zip", "enumerate"):
+                        a = a.it  # stay lazy (may be unbounded, e.g. itertools.count)
+                    else:
+                        a = _drain(a)
                 elif isinstance(a, Member) and n in ("int", "bool", "bytes", "abs", "min", "max", "range"):
                     a = a.value
                 pyargs.append(a)
@@ -1732,7 +2025,12 @@ class PX:
                     if n in ("enumerate", "zip", "reversed"):
                         if any(isinstance(a, Sym) for a in pyargs):
                             return Sym(f"{n}({', '.join(_short(a) for a in pyargs)})")
-                        return list({"enumerate": enumerate, "zip": zip, "reversed": reversed}[n](*pyargs, **kw))
+                        lazy = {"enumerate": enumerate, "zip": zip, "reversed": reversed}[n](*pyargs, **kw)
+                        if n == "zip" and pyargs and all(not hasattr(a, "__len__") for a in pyargs):
+                            return Iter(lazy, "zip")  # only iterators: keep it lazy, nothing guarantees it is finite
+                        if n == "enumerate" and not hasattr(pyargs[0], "__len__"):
+                            return Iter(lazy, "enumerate")
+                        return list(lazy)
                     if any(isinstance(a, Sym) for a in pyargs):
                         return Sym(f"{n}({', '.join(_short(a) for a in pyargs)})")
                     import builtins
@@ -1837,6 +2135,15 @@ class _Cycle:
         return [self.items[i % len(self.items)] for i in range(n)]
 
 
+def _drain(it, limit=100000):
+    out = []
+    for x in it.it:
+        out.append(x)
+        if len(out) > limit:
+            raise Unsupported("unbounded iterator drained")
+    return out
+
+
 class _Gen:
     def __init__(self, items):
         self.items = list(items)
@@ -1849,6 +2156,8 @@ def _patch_iter():
     orig = PX._concrete_iter
 
     def _ci(self, v, fr, node):
+        if isinstance(v, Iter):
+            return _drain(v)
         if isinstance(v, _Gen):
             return list(v.items)
         if isinstance(v, _DictItems):
@@ -1859,6 +2168,8 @@ def _patch_iter():
     orig_iv = PX.iter_values
 
     def _iv(self, it, target, fr, node):
+        if isinstance(it, Iter):
+            return _drain(it)
         if isinstance(it, (_Gen, _DictItems)):
             return list(it)
         return orig_iv(self, it, target, fr, node)
@@ -1960,6 +2271,27 @@ def _is_classmethod(f):
 
 def _is_property(f):
     return any(d.endswith("property") for d in _decos(f))
+
+
+def _is_generator(fnode):
+    if isinstance(fnode, ast.Lambda):
+        return False
+    stack = list(fnode.body)
+    while stack:
+        n = stack.pop()
+        if isinstance(n, (ast.Yield, ast.YieldFrom)):
+            return True
+        if isinstance(n, (ast.FunctionDef, ast.AsyncFunctionDef, ast.ClassDef, ast.Lambda)):
+            continue
+        stack.extend(ast.iter_child_nodes(n))
+    return False
+
+
+def _is_namedtuple(cls):
+    try:
+        return isinstance(cls, ClassRef) and "NamedTuple" in cls.base_names()[1:]
+    except Exception:
+        return False
 
 
 def _is_dataclass(cls):
